@@ -40,12 +40,15 @@ DrawNums == {1,3,5,7}
 \* classes available to programs: name -> sequence of field kinds ("q" = qubit, "a" = qubit[2]), tracked?
 ClassFields(c) == CASE c = "Q1" -> <<[k |-> "q", tracked |-> TRUE,  name |-> "q"]>>
                     [] c = "Q2" -> <<[k |-> "a", tracked |-> TRUE,  name |-> "r"]>>
+                    \* QG is a GENERIC class (rendered QG<int>), QH a plain class deriving from QG<int>: same layout as Q2, but
+                    \* the implementation builds their field table (tracked flags, array sizes) in its generic-instantiation path
+                    [] c \in {"QG", "QH"} -> <<[k |-> "a", tracked |-> TRUE,  name |-> "r"]>>
                     [] c = "QU" -> <<[k |-> "q", tracked |-> FALSE, name |-> "q"],
                                      [k |-> "q", tracked |-> FALSE, name |-> "p"]>>
                     \* QD extends Q1: inherits the tracked field q (offset 0), adds d
                     [] c = "QD" -> <<[k |-> "q", tracked |-> TRUE,  name |-> "q"],
                                      [k |-> "q", tracked |-> FALSE, name |-> "d"]>>
-Classes == {"Q1","Q2","QU","QD"}
+Classes == {"Q1","Q2","QU","QD","QG","QH"}
 Width(k) == IF k = "a" THEN 2 ELSE 1
 
 (* ------------------------------------------------------------------ *)
